@@ -127,10 +127,33 @@ Definition start_block (E : env) (b : base) (prevlvl ru : N) : res evalst :=
   end.
 
 (* ------------------------------------------------------------------ endOfBlock *)
+(* validateExpiredOnlineAccounts: the per-account conditions (the duplicate check and the
+   length bound are in [end_block]) *)
+Fixpoint validate_expired (E : env) (addrs : list N) : M unit :=
+  match addrs with
+  | [] => ret tt
+  | a :: r => x <- m_lookup a ;;
+              guard (negb (a_votepk x =? 0)) E_BLOCK ;;;
+              guard (a_votelast x <? e_rnd E) E_BLOCK ;;;
+              validate_expired E r
+  end.
+
 Fixpoint reset_expired (addrs : list N) : M unit :=
   match addrs with
   | [] => ret tt
   | a :: r => x <- m_lookup a ;; m_put a (clear_online x) ;;; reset_expired r
+  end.
+
+(* validateAbsentOnlineAccounts: the status / balance / eligibility conditions (whether the
+   account really is absent is C27) *)
+Fixpoint validate_absent (addrs : list N) : M unit :=
+  match addrs with
+  | [] => ret tt
+  | a :: r => x <- m_lookup a ;;
+              guard (status_eqb (a_status x) Online) E_BLOCK ;;;
+              guard (negb (a_algos x =? 0)) E_BLOCK ;;;
+              guard (a_elig x) E_BLOCK ;;;
+              validate_absent r
   end.
 
 Fixpoint suspend_absent (addrs : list N) : M unit :=
@@ -151,8 +174,10 @@ Definition record_proposal (E : env) (proposer : N) : M unit :=
         m_put proposer p2).
 
 Definition end_block (E : env) (expired absent : list N) (proposer payout : N) : M unit :=
+  when (e_validate E) (validate_expired E expired) ;;;
   guard (N.of_nat (length expired) <=? p_maxexpired (e_P E)) E_BLOCK ;;;
   reset_expired expired ;;;
+  when (e_validate E) (validate_absent absent) ;;;
   suspend_absent absent ;;;
   perform_payout E proposer payout ;;;
   record_proposal E proposer.
